@@ -13,7 +13,9 @@ import (
 	"encoding/asn1"
 	"encoding/hex"
 	"encoding/pem"
+	"errors"
 	"fmt"
+	"io"
 	"math/big"
 	mrand "math/rand"
 	"net"
@@ -36,6 +38,15 @@ type keyEntry struct {
 	priv crypto.Signer
 }
 
+// pubOnly stands in for a subject key of which only the public half exists (a certificate can be issued for any public
+// key): an RSA key with an unusually large public exponent.
+type pubOnly struct{ pub crypto.PublicKey }
+
+func (p pubOnly) Public() crypto.PublicKey { return p.pub }
+func (p pubOnly) Sign(io.Reader, []byte, crypto.SignerOpts) ([]byte, error) {
+	return nil, errors.New("public half only")
+}
+
 var subjectKeys, issuerKeys []keyEntry
 
 func mustRSA(bits int) *rsa.PrivateKey {
@@ -56,6 +67,10 @@ func mustEC(c elliptic.Curve) *ecdsa.PrivateKey {
 func initKeys() {
 	subjectKeys = []keyEntry{{"rsa1024", mustRSA(1024)}, {"rsa2048", mustRSA(2048)}, {"p256", mustEC(elliptic.P256())}, {"p384", mustEC(elliptic.P384())}, {"p521", mustEC(elliptic.P521())},
 		{"p256b", mustEC(elliptic.P256())}, {"p384b", mustEC(elliptic.P384())}, {"p521b", mustEC(elliptic.P521())}}
+	base := mustRSA(1024)
+	for _, e := range []int{3, 1<<31 - 1, 1 << 31, 1<<32 + 1, 1<<62 + 1} {
+		subjectKeys = append(subjectKeys, keyEntry{fmt.Sprintf("rsa1024-e%d", e), pubOnly{&rsa.PublicKey{N: base.N, E: e}}})
+	}
 	issuerKeys = []keyEntry{{"rsa2048", mustRSA(2048)}, {"p256", mustEC(elliptic.P256())}, {"p384", mustEC(elliptic.P384())}, {"p521", mustEC(elliptic.P521())}}
 }
 
@@ -517,7 +532,9 @@ func total(r *ev.Run, c *ev.Case, data []byte, what string) {
 	r.Eval(1)
 	if len(data) < 4096 {
 		d := append([]byte{}, data...)
-		defer func() { ring.Add(r, c, func() string { return ev.Digest(func() string { return parseDigest(d) }) }, ev.Digest(func() string { return parseDigest(d) }), hex.EncodeToString(d)) }()
+		defer func() {
+			ring.Add(r, c, func() string { return ev.Digest(func() string { return parseDigest(d) }) }, ev.Digest(func() string { return parseDigest(d) }), hex.EncodeToString(d))
+		}()
 	}
 	rec := map[string]string{"what": what, "der_hex": hex.EncodeToString(data)}
 	r.Guard(c, "ParseCertificate("+what+")", rec, func() {
